@@ -11,6 +11,7 @@
  *                                        drv = apply (.., ORIGIN_DRIVER)
  *                                        cot = apply (.., ORIGIN_CALL_OUT)
  *                                        rco = real call_out: new_call_out + current_time++ + call_out()
+ *                                        hb  = heart_beat origin: set_heart_beat + one backend tick (fn is ignored)
  *                                prints `call ...`, the `run ...` lines of the LPC bodies, `ret <v>|!no|!err`,
  *                                then `vars <oid> v0 v1 ...`
  *   cold                         clear_apply_cache()
@@ -24,6 +25,18 @@
 #include "lpc/include/function.h"
 #include "efuns_opcode.h"
 #include "src/interpret.h"
+#include "src/backend.h"
+void verif_tick (void);
+
+/* virtual clock: backend.c:call_heart_beat() does `time (&current_time)`; interposed at link level so that a backend
+ * tick keeps the harness' clock (current_time) instead of jumping to the wall clock */
+time_t time (time_t * t)
+{
+  time_t v = current_time ? current_time : (time_t) VH_T0;
+  if (t)
+    *t = v;
+  return v;
+}
 
 #define MAXN 512
 static char *names[MAXN];
@@ -175,7 +188,7 @@ static void dump_prog (program_t * p)
       else
         EMIT ("%s%d:D:%d:%d", i ? "," : "", fl, (int) e->def.f_index, (int) e->def.num_arg);
     }
-  EMIT (" inh=");
+  EMIT (" hb=%d inh=", (int) p->heart_beat);
   if (!p->num_inherited)
     EMIT ("-");
   for (int i = 0; i < p->num_inherited; i++)
@@ -308,6 +321,14 @@ static void cmd_call (const char *origin, const char *oid, const char *fn)
           else
             vh_sv (res, sizeof res, ret);
         }
+      else if (!strcmp (origin, "hb"))
+        {
+          /* the heart_beat origin: backend.c:call_heart_beat -> call_function (prog, prog->heart_beat) */
+          set_heart_beat (ob, 1);
+          verif_tick ();
+          set_heart_beat (ob, 0);
+          snprintf (res, sizeof res, "ticked");
+        }
       else if (!strcmp (origin, "rco"))
         {
           svalue_t f;
@@ -328,6 +349,14 @@ static void cmd_call (const char *origin, const char *oid, const char *fn)
       restore_context (&econ);
       pop_context (&econ);
       rc = 1;
+      if (!strcmp (origin, "hb"))
+        {
+          /* the backend recovers from an error in a heart beat and goes on; so does the tick here */
+          if (!(ob->flags & O_DESTRUCTED))
+            set_heart_beat (ob, 0);
+          rc = 0;
+          snprintf (res, sizeof res, "ticked");
+        }
     }
   if (rc == 1)
     vh_out ("ret !err");
